@@ -281,13 +281,20 @@ func TestVerifNodeconfRace(t *testing.T) {
 				_ = s.Partition(raced)
 			}
 		}()
+		parked := true
 		select {
 		case <-gate.entered:
+		case <-lookupDone: // the lookup answered without walking the ring (nothing to interleave with)
+			parked = false
 		case <-time.After(60 * time.Second):
-			t.Fatal("harness: the lookup never reached the ring walk")
+			t.Fatal("harness: the lookup neither returned nor reached the ring walk")
 		}
+		src.mu.Lock()
+		cb := confB
+		src.next = &cb
+		src.mu.Unlock()
 		// 2. does the parked lookup hold the service's lock?  (TryLock succeeds only if nobody holds it)
-		holds := true
+		holds := parked
 		for i := 0; i < 300 && holds; i++ {
 			if s.mu.TryLock() {
 				s.mu.Unlock()
@@ -296,15 +303,18 @@ func TestVerifNodeconfRace(t *testing.T) {
 				time.Sleep(time.Millisecond)
 			}
 		}
-		tw.emit(map[string]any{"ev": "LookupBegin", "p": self, "space": strings.Split(raced, "."), "method": method, "locked": holds})
-		src.mu.Lock()
-		cb := confB
-		src.next = &cb
-		src.mu.Unlock()
 		upd := make(chan error, 1)
-		if holds {
+		switch {
+		case !parked:
+			close(gate.release)
+			if err := s.updateConfiguration(context.Background()); err != nil {
+				t.Fatalf("harness: update failed: %v", err)
+			}
+			tw.emit(map[string]any{"ev": "Update", "p": self, "cid": confB.Id})
+		case holds:
 			// the update has to wait for the lookup: run it concurrently, let the lookup finish
 			held++
+			tw.emit(map[string]any{"ev": "LookupBegin", "p": self, "space": strings.Split(raced, "."), "method": method, "locked": true})
 			go func() { upd <- s.updateConfiguration(context.Background()) }()
 			close(gate.release)
 			<-lookupDone
@@ -313,9 +323,10 @@ func TestVerifNodeconfRace(t *testing.T) {
 				t.Fatalf("harness: update failed: %v", err)
 			}
 			tw.emit(map[string]any{"ev": "Update", "p": self, "cid": confB.Id})
-		} else {
+		default:
 			// the lookup does not block the update: apply it completely while the lookup is parked
 			notHeld++
+			tw.emit(map[string]any{"ev": "LookupBegin", "p": self, "space": strings.Split(raced, "."), "method": method, "locked": false})
 			if err := s.updateConfiguration(context.Background()); err != nil {
 				t.Fatalf("harness: update failed: %v", err)
 			}
